@@ -1,6 +1,10 @@
 SPECIFICATION Spec
 CONSTANTS
-  Comp = "tree"
-  Depth = 6
-  K = 5
+  Comps = {"tree", "list", "vector", "bitset"}
+  DTree = 6
+  DList = 4
+  DVec = 4
+  DBit = 3
+  KTree = 5
+  KList = 4
 INVARIANTS Sane Export
